@@ -10,6 +10,7 @@ guard.  No solver is involved; feasibility is `pc != FALSE` on canonical BDDs.
 Local callees are analysed by cloning (context sensitivity); selected functions
 are *primitives* with validated summaries; library callees have explicit models.
 """
+import json
 import os
 import bv
 from bv import M as _M0  # noqa
@@ -523,6 +524,21 @@ class Interp:
             key = ("const", v["ref_int"], v["bits"], v.get("variant"))
             if key not in self.const_pool:
                 self.const_pool[key] = Enum(v["variant"], ()) if "variant" in v else Int(bv.const(int(v["ref_int"]), v["bits"]))
+            return Ref(key, ())
+        if "ref_val" in v and "ref_array" not in v and "ref_struct" not in v and "ref_int" not in v:
+            key = ("const", "val", json.dumps(v["ref_val"], sort_keys=True))
+            if key not in self.const_pool:
+                def conv(x):
+                    if "int" in x:
+                        return Int(bv.const(int(x["int"]), x["bits"]))
+                    if "variant" in x:
+                        return Enum(x["variant"], ())
+                    if "fields" in x:
+                        return Agg([conv(y) for y in x["fields"]])
+                    if "elems" in x:
+                        return Agg([conv(y) for y in x["elems"]])
+                    return Opaque("const")
+                self.const_pool[key] = conv(v["ref_val"])
             return Ref(key, ())
         if "ref_array" in v:
             key = ("const", "array", v["bits"], tuple(v["ref_array"]))
